@@ -9,6 +9,10 @@ Part sweep (E3): every registered object class x every property, one instance wi
            read whole / 0 / 1 / n / n+1, ReadPropertyMultiple of the same references and of all / required /
            optional, writes of a valid, a wrong-typed and a Null value, whole and per element; next to every swept
            object the device's own Device object is read through the wildcard instance 4194303.
+           In both parts every array property - stored or computed per request (propertyList of an object with
+           CurrentPropertyListMixIn, the device's objectList), by the object's identifier and for the device also by the
+           wildcard - is walked completely: whole value, length at index 0, every element 1..n, index n+1, with ReadProperty
+           and in one ReadPropertyMultiple; they have to describe one array (bv.refs.propref.array_census).
 Part cmd   (E3): two objects of one commandable class on one device; every history of valid commands, relinquishes and
            writes of things that are not values of the datatype (bv.refs.cmdref.INVALID), with priority 8 or none; after
            every step the command state of both objects is read back over the wire and compared with a 16-slot model, a
@@ -51,6 +55,10 @@ RULE = ("hist: BFS over all histories of the alphabet {ReadProperty, WriteProper
         "references, then the writes; the model follows accepted writes, system and model are rebuilt after a failing "
         "state change; a case is distinct by (class, variant, property, operation); per instance the device's own Device "
         "object is read by the wildcard identifier (ReadProperty and one RPM that names it by both identifiers).  "
+        "census (hist: in every state; sweep: per array property before its writes and for the device's own objectList / "
+        "propertyList per instance): the value without index, index 0, every index 1..n (n = what index 0 answered) and n+1 of every "
+        "array property, computed ones included, by ReadProperty and in one ReadPropertyMultiple: the elements one after the other "
+        "are the octets of the whole value, n+1 is refused as an invalid index; a case is distinct by (state | class, object, property).  "
         "cmd: two objects of one commandable class on one device; alphabet = {value_i, Null (relinquish), invalid_j (every "
         "entry of cmdref.INVALID for the class: undefined enumeration number, value of another datatype, undefined "
         "enumeration name, out of range)} x object x priority {8, none}; all histories up to the stated length, fresh "
@@ -458,6 +466,34 @@ class Session(object):
             for (p, i, r) in elems:
                 self._cmp(objkey, p, i, r, opdesc, "explicit", robj)
 
+    # ---- one array, every index class against every other
+    def census(self, objkey, prop):
+        """The whole value, the length at index 0, every element 1..n and index n+1 of one array property, read with
+        ReadProperty and once more with ReadPropertyMultiple, have to describe ONE array (R.array_census).  This needs
+        no prediction of the content, so it also judges the arrays a device computes per request (propertyList of an
+        object with CurrentPropertyListMixIn, objectList), where the dictionary model predicts nothing."""
+        opdesc = ["C", list(objkey), prop]
+        t = tk(self.ptype(objkey, prop))
+        whole = self.rp(objkey, prop, None)
+        if whole[0] != "ack" or (objkey, prop, None) in self.badrp:
+            return                      # judged by rp()
+        length = self.rp(objkey, prop, 0)
+        n = R.dec_unsigned(length[1]) if length[0] == "ack" else None
+        if n is not None and n > R.CENSUS_MAX:
+            self.acc.add_info("census: arrays longer than %d not walked" % R.CENSUS_MAX)
+            return
+        elements = [self.rp(objkey, prop, i) for i in range(1, (n or 0) + 1)]
+        beyond = self.rp(objkey, prop, n + 1) if n is not None else None
+        self.acc.evaluations += 1
+        self.acc.outcome("census:%s:n=%s" % (t, "none" if n is None else ("0" if n == 0 else ("1-3" if n <= 3 else ">3"))))
+        for what, detail in R.array_census(whole[1], length, elements, beyond):
+            detail.update({"op": opdesc, "whole": whole[1]})
+            self.fail("array:%s:%s" % (what, t), detail, opdesc)
+            return
+        # the same references in one ReadPropertyMultiple: every result is compared with the ReadProperty reply
+        refs = [(prop, None)] + [(prop, i) for i in range(0, n + 2)]
+        self.rpm_explicit([(objkey, refs)])
+
     def rpm_selector(self, objkey, which):
         opdesc = ["S", list(objkey), which]
         results = self._rpm([(objkey, [(which, None)])], opdesc)
@@ -719,6 +755,19 @@ class HistAlphabet(object):
         table = self.values[(objkey, prop)]
         return table["whole" if index is None else ("zero" if index == 0 else "elem")][vname]
 
+    def arrays(self, model):
+        """Every array property of every object of the model, the computed ones included (and the device's once more
+        through the wildcard identifier): the properties Session.census walks in every state."""
+        out = []
+        for objkey, props, roles in self.objects:
+            for prop in sorted(model.objects[objkey]):
+                p = model.objects[objkey][prop]
+                if p.kind() == "array" or p.ptype == ("opaque", "array"):
+                    out.append((objkey, prop))
+                    if objkey == self.local_device:
+                        out.append((WILD, prop))
+        return out
+
     def rpm_specs(self, model):
         """Explicit ReadPropertyMultiple requests of a state."""
         out = []
@@ -828,6 +877,10 @@ def explore_state(al, hist, acc, nxt):
     for uo in UNKNOWN_OBJECTS:
         acc.case((shash, "S", uo, "all"))
         ses.rpm_selector(uo, "all")
+    # -- every array, computed or stored: whole value, length, every element and the index beyond describe one array
+    for (objkey, prop) in al.arrays(ses.m):
+        acc.case((shash, "C", objkey, prop))
+        ses.census(objkey, prop)
     if ses.broken:
         return      # a read changed the state: reported, nothing below can be judged
     # -- writes
@@ -887,6 +940,9 @@ SWEEP_DEVICE_REFS = [("objectIdentifier", None), ("objectName", None), ("objectN
                      ("objectList", 0), ("objectList", 1), ("objectList", 2), ("objectList", 3)]
 
 
+SWEEP_DEVICE_ARRAYS = ["objectList", "propertyList"]
+
+
 class SweepObject(object):
     """One instance of one class (standard or writable twin) with generated values + its model."""
 
@@ -936,6 +992,7 @@ class SweepObject(object):
             "objectIdentifier": R.Prop(("one", _k(12)), [oid(SWEEP_DEVICE)], False, True),
             "objectName": R.Prop(("one", _k(7)), [D.item(CharacterString(SWEEP_DEVICE_NAME))], False, True),
             "objectList": R.Prop(("array", _k(12), None), [oid(SWEEP_DEVICE), oid(self.objkey)], False, True),
+            "propertyList": R.Prop(("opaque", "array"), None, False, True),     # computed per request, not predicted
         }, local_device=True)
         return sysm, model
 
@@ -994,6 +1051,9 @@ def sweep_one(ci, variant, v, n, acc, only_prop=None):
             acc.traces += 1
         acc.case(ck + ("M",))
         ses.rpm_explicit([(objkey, [(pid, i) for i in idxs])])
+        if isarr:
+            acc.case(ck + ("C",))
+            ses.census(objkey, pid)
         # writes
         try:
             g2 = D.gen_property(dt, v + 2 + (hash_name(pid) % 2), (so.n + 1) if (isarr and p.ptype[2] is None) else so.n)
@@ -1065,6 +1125,12 @@ def sweep_one(ci, variant, v, n, acc, only_prop=None):
             ses.rp(WILD, p_, i_)
             acc.traces += 1
         ses.rpm_explicit([(WILD, SWEEP_DEVICE_REFS), (objkey, [("objectName", None)]), (SWEEP_DEVICE, SWEEP_DEVICE_REFS[:2])])
+        # the arrays the device computes about itself (the list of its objects, the list of the properties of its
+        # Device object), by its own identifier and by the wildcard: whole, length, every element, one beyond
+        for who in (SWEEP_DEVICE, WILD):
+            for p_ in SWEEP_DEVICE_ARRAYS:
+                acc.case((cname, variant, v, "C", who, p_))
+                ses.census(who, p_)
 
 
 def sweep_shard(item, deadline):
@@ -1349,7 +1415,7 @@ def replay(case):
     if case.get("part") == "sweep":
         op = case["op"]
         prop = None
-        if op[0] in ("R", "W"):
+        if op[0] in ("R", "W", "C"):
             prop = op[2]
         elif op[0] == "M":
             prop = op[1][0][1][0][0]
@@ -1384,6 +1450,8 @@ def replay(case):
             ses.rpm_explicit([((o[0], int(o[1])), [(p, i) for (p, i) in refs]) for (o, refs) in op[1]])
         elif op[0] == "S":
             ses.rpm_selector((op[1][0], int(op[1][1])), op[2])
+        elif op[0] == "C":
+            ses.census((op[1][0], int(op[1][1])), op[2])
     if not acc.fails:
         return True, "no failure on this case"
     if sig is not None and sig not in acc.fails:
